@@ -43,6 +43,7 @@ type caseSpec struct {
 	Rules []string   // simbox rules driving the run the way `bondmachine -sim` does (i0 -> p0i0, p0o0 -> o0)
 	Sps   string     // "<number type>~<input>": the case is one SinglePipelineSimulate call showing o0 in that type
 	Dly   string     // "op:d,op:d": the delay table of this simulation (single-valued distributions)
+	Group int        // > 0: in a batch the concurrent group of this case is Group copies of itself
 	Prev  string     // like Dly: when the case runs after other simulations (batch), its *simbox.SimDelays object
 	// was first used, for a simulation of the same machine, with this table and then UPDATED IN PLACE to Dly
 	// (simbox.MergeSimDelays / direct map update, what cmd/simfinetune does between fitness evaluations)
@@ -71,6 +72,9 @@ func (c caseSpec) String() string {
 	}
 	if c.Sps != "" {
 		extra += " sps=" + c.Sps
+	}
+	if c.Group > 0 {
+		extra += fmt.Sprintf(" group=%d", c.Group)
 	}
 	if c.Dly != "" {
 		extra += " dly=" + c.Dly
@@ -105,6 +109,8 @@ func parseCase(s string) (caseSpec, error) {
 			c.Rules = strings.Split(kv[1], ";")
 		case "sps":
 			c.Sps = kv[1]
+		case "group":
+			fmt.Sscanf(kv[1], "%d", &c.Group)
 		case "dly":
 			c.Dly = kv[1]
 		case "prev":
@@ -198,6 +204,14 @@ func (c caseSpec) build() (*bondmachine.Bondmachine, error) {
 			d.Arch.M = 2
 		}
 		d.Arch.Op = opsFor(c.Progs[i])
+		for _, l := range c.Progs[i] {
+			switch strings.Fields(l)[0] {
+			case "r2u", "u2r", "k2r", "t2r", "r2t", "q2r", "r2q":
+				// the command-channel opcodes address a shared object of the processor (no driver is attached:
+				// the commands are taken by the VM's dispatcher and dropped)
+				d.Arch.Shared_constraints = "uart:0,kbd:0,stack:0,queue:0"
+			}
+		}
 		p, err := d.Arch.Assembler([]byte(strings.Join(c.Progs[i], "\n") + "\n"))
 		if err != nil {
 			return nil, fmt.Errorf("core %d: %v", i, err)
@@ -581,6 +595,24 @@ func genCases(tier string) []caseSpec {
 		Rules: []string{"config:show_disasm", "config:show_pc", "config:show_ticks", "relative:4:set:i0:9"}})
 	cs = append(cs, caseSpec{ID: n + 20, P: 3, Rsize: 8, Ticks: 10, Progs: shProgs,
 		Rules: []string{"config:show_instruction", "config:show_proc_regs_pre", "config:show_io_post", "absolute:2:set:i0:1"}})
+	// command-channel opcodes (they hand a command to the VM's dispatcher goroutine; no driver attached):
+	// many processors executing them in the same tick, many simulations at once
+	cmdCore := func(op string) []string { return []string{"rset r1 3", "inc r0", op, "j 1"} }
+	c1 := caseSpec{ID: n + 90, P: 5, Rsize: 8, Ticks: 60, Group: 48}
+	for p := 0; p < c1.P; p++ {
+		c1.Progs = append(c1.Progs, cmdCore("r2u r0 u0"))
+	}
+	cs = append(cs, c1)
+	c2 := caseSpec{ID: n + 91, P: 7, Rsize: 8, Ticks: 40, Group: 24}
+	for _, op := range []string{"r2v r0 3", "k2r r0 k0", "t2r r0 st0", "q2r r0 q0", "r2q r0 q0", "r2t r0 st0", "u2r r0 u0"} {
+		c2.Progs = append(c2.Progs, cmdCore(op))
+	}
+	cs = append(cs, c2)
+	c3 := caseSpec{ID: n + 92, P: 8, Rsize: 8, Ticks: 50, Group: 16}
+	for p := 0; p < c3.P; p++ {
+		c3.Progs = append(c3.Progs, []string{"rset r1 3", "inc r0", "r2u r0 u0", "r2u r1 u0", "j 1"})
+	}
+	cs = append(cs, c3)
 	// several absolute set rules for the SAME tick and the SAME object (a later rule overrides an earlier
 	// one), on objects that are not the first one named by a set rule (inputs and processor registers)
 	dupProgs := [][]string{{"i2r r2 i0", "add r0 r1", "add r0 r3", "r2o r0 o0", "j 0"}, {"add r0 r2", "inc r1", "r2o r0 o0", "j 0"}}
@@ -701,9 +733,12 @@ func runBatch(path string) {
 		emit(c, "seq", 1, tr, err)
 		// (2) concurrently with k-1 other simulations: copies of itself and other machines
 		k := 2 + rng.Intn(7)
+		if c.Group > 0 {
+			k = c.Group
+		}
 		idx := []int{i}
 		for len(idx) < k {
-			if rng.Bool() {
+			if rng.Bool() || c.Group > 0 {
 				idx = append(idx, i)
 			} else {
 				j := rng.Intn(len(cs))
